@@ -60,7 +60,13 @@ def _chunk_worker(args):
             elif v == "unspec":
                 stats["unspec"] += 1
             else:
-                bad.append({"case": case, "opts": opts, "expected": exp, "observed": out, "verdict": v})
+                # a deterministic library reproduces a real mismatch: execute the case once more, in this same process (so that
+                # process-wide state left by earlier cases is still there); a mismatch that does not recur is recorded as transient
+                out2 = run_case(fam.execute, case, opts)
+                if judge(exp, out2, strict) in ("ok", "unspec"):
+                    stats["transient"] = stats.get("transient", 0) + 1
+                else:
+                    bad.append({"case": case, "opts": opts, "expected": exp, "observed": out, "verdict": v})
     return stats, bad, samples
 
 
@@ -83,13 +89,13 @@ def _split_offsets(path, nparts):
 def replay_dump(path, family, prop, strict, variants_name="variants", want_phase=2, procs=NCPU):
     offs = _split_offsets(path, procs * 4)
     tasks = [(path, a, b, family, prop, strict, variants_name, want_phase) for a, b in zip(offs, offs[1:])]
-    total = {"cases": 0, "evals": 0, "ok": 0, "unspec": 0, "nontrivial": 0}
+    total = {"cases": 0, "evals": 0, "ok": 0, "unspec": 0, "nontrivial": 0, "transient": 0}
     bad, samples = [], []
     ctx = mp.get_context("fork")
     with ctx.Pool(procs) as pool:
         for stats, b, s in pool.imap_unordered(_chunk_worker, tasks):
             for k in total:
-                total[k] += stats[k]
+                total[k] += stats.get(k, 0)
             bad += b
             if len(samples) < 4:
                 samples += s
@@ -103,7 +109,7 @@ def mech_rows(bufs, v):
 
 def _step_handles(step):
     k = step[0]
-    if k in ("select", "assign", "read"):
+    if k in ("select", "assign", "read", "fill"):
         return [step[1]]
     if k == "ufunc":
         return [o[1] for o in (step[2], step[3]) if o[0] == "h"]
@@ -183,6 +189,11 @@ def _heap_worker(args):
             stats["evals"] += 1
             stats["observations"] += len(st["heap"])
             b = judge_heap_state(st, run)
+            if any(not (x.get("stale") and x.get("mech_match")) for x in b):
+                b2 = judge_heap_state(st, exec_heap.run_program(prog, opts, observe="last"))       # confirmation, same process
+                if not any(not (x.get("stale") and x.get("mech_match")) for x in b2):
+                    stats["transient"] = stats.get("transient", 0) + 1
+                    b = b2
             if not b:
                 stats["ok"] += 1
             for x in b:
@@ -194,13 +205,13 @@ def _heap_worker(args):
 def replay_heap_dump(path, prop, variants_name="heap_variants", min_len=1, procs=NCPU):
     offs = _split_offsets(path, procs * 4)
     tasks = [(path, a, b, prop, variants_name, min_len) for a, b in zip(offs, offs[1:])]
-    total = {"cases": 0, "evals": 0, "ok": 0, "unspec": 0, "nontrivial": 0, "observations": 0}
+    total = {"cases": 0, "evals": 0, "ok": 0, "unspec": 0, "nontrivial": 0, "observations": 0, "transient": 0}
     bad, samples = [], []
     ctx = mp.get_context("fork")
     with ctx.Pool(procs) as pool:
         for stats, b, s in pool.imap_unordered(_heap_worker, tasks):
             for k in total:
-                total[k] += stats[k]
+                total[k] += stats.get(k, 0)
             bad += b
             if len(samples) < 3:
                 samples += s
@@ -377,6 +388,11 @@ def _hash_worker(args):
             stats["evals"] += 1
             stats["observations"] += len(st["tabs"])
             b, v = judge_hash_state(st, run)
+            if b:
+                b2, v2 = judge_hash_state(st, exec_hash.run_program(prog, opts, observe="last"))         # confirmation, same process
+                if not b2:
+                    stats["transient"] = stats.get("transient", 0) + 1
+                    b, v = b2, v2
             if v == "unspec":
                 stats["unspec"] += 1
             if not b:
@@ -390,13 +406,13 @@ def _hash_worker(args):
 def replay_hash_dump(path, prop, variants_name="hash_variants", min_len=1, procs=NCPU):
     offs = _split_offsets(path, procs * 4)
     tasks = [(path, a, b, prop, variants_name, min_len) for a, b in zip(offs, offs[1:])]
-    total = {"cases": 0, "evals": 0, "ok": 0, "unspec": 0, "nontrivial": 0, "observations": 0}
+    total = {"cases": 0, "evals": 0, "ok": 0, "unspec": 0, "nontrivial": 0, "observations": 0, "transient": 0}
     bad, samples = [], []
     ctx = mp.get_context("fork")
     with ctx.Pool(procs) as pool:
         for stats, b, s in pool.imap_unordered(_hash_worker, tasks):
             for k in total:
-                total[k] += stats[k]
+                total[k] += stats.get(k, 0)
             bad += b
             if len(samples) < 3:
                 samples += s
